@@ -21,14 +21,20 @@ func (c *Client) Release() {
 		return
 	}
 
-	client := c.client()
+	// Give up the resource before returning it: a handle released twice
+	// must not release or destroy a resource that was handed to another
+	// holder in the meantime.
+	res := c.res
+	c.res = nil
 
-	if client.IsClosed() || time.Since(c.res.CreationTime()) > c.p.options.MaxConnLifetime {
-		c.res.Destroy()
+	client := res.Value().client
+
+	if client.IsClosed() || time.Since(res.CreationTime()) > c.p.options.MaxConnLifetime {
+		res.Destroy()
 		return
 	}
 
-	c.res.Release()
+	res.Release()
 }
 
 func (c *Client) Do(ctx context.Context, q ch.Query) (err error) {
